@@ -65,7 +65,23 @@ fn manager_history(acc: &mut Acc, r: &mut Rng, steps: u64) {
     let (mut mid, mut mstart) = (id0, genesis);
     let mut created: Vec<(u64, u64)> = vec![];
     let mut ops: Vec<String> = vec![];
+    let mut duration = duration;
+    let mut duration_changed = false;
+    let change_durations = r.chance(1, 3);
     for _ in 0..steps {
+        // in a third of the histories the owner changes the epoch duration now and then: the next epoch starts one
+        // (new) duration after the current one, whatever genesis + id * duration would say
+        if change_durations && r.chance(1, 12) {
+            let nd = *r.pick(&[DAY_NS, DAY_NS + 1, DAY_NS / 2, 3 * DAY_NS, 7 * DAY_NS]);
+            if exec(&mut app, &owner, &mgr, &em::ExecuteMsg::UpdateConfig { owner: None, epoch_config: Some(em::EpochConfig { duration: Uint64::new(nd), genesis_epoch: Uint64::new(genesis) }) }, &[]).is_ok() {
+                ops.push(format!("owner sets the epoch duration {duration} -> {nd}"));
+                if nd != duration {
+                    duration_changed = true;
+                    acc.count("manager.duration-changed");
+                }
+                duration = nd;
+            }
+        }
         let now = app.block_info().time.nanos();
         let t = schedule_step(r, now, mstart, duration, genesis);
         if t > now {
@@ -135,8 +151,20 @@ fn manager_history(acc: &mut Acc, r: &mut Rng, steps: u64) {
     }
     // ids and start times strictly increasing and gap-free
     for wdw in created.windows(2) {
-        if wdw[1].0 != wdw[0].0 + 1 || wdw[1].1 != wdw[0].1 + duration {
+        if wdw[1].0 != wdw[0].0 + 1 || wdw[1].1 <= wdw[0].1 || (!duration_changed && wdw[1].1 != wdw[0].1 + duration) {
             acc.violation("C20", "T2/manager/ids-or-start-times-not-gap-free", detail(&ops, json!({"created": format!("{created:?}")})));
+        }
+    }
+    // the Epoch{id} query agrees with what was created (only judged with a constant duration: the query
+    // derives past epochs from the current one and the current duration)
+    if !duration_changed {
+        for (id, st) in created.iter().rev().take(12) {
+            acc.count("check.T2.query.past-epoch");
+            let e: Result<em::EpochResponse, String> = query(&app, &mgr, &em::QueryMsg::Epoch { id: *id });
+            match e {
+                Ok(e) if e.epoch.id == *id && e.epoch.start_time.nanos() == *st => {}
+                other => acc.violation("C20", "T2/manager/epoch-query!=created-epoch", detail(&ops, json!({"id": id, "created_start": st, "query": format!("{other:?}")}))),
+            }
         }
     }
     let k = ops.len().saturating_sub(6);
@@ -154,7 +182,19 @@ fn distributor_history(acc: &mut Acc, r: &mut Rng, steps: u64) {
     let (mut mid, mut mstart) = (0u64, 0u64);
     let mut created: Vec<(u64, u64)> = vec![];
     let mut ops: Vec<String> = vec![];
+    let mut duration = duration;
+    let change_durations = r.chance(1, 3);
     for _ in 0..steps {
+        if change_durations && mid >= 1 && r.chance(1, 12) {
+            let nd = *r.pick(&[DAY_NS, DAY_NS + 1, 2 * DAY_NS, 3 * DAY_NS, 7 * DAY_NS]);
+            if exec(&mut app, &owner, &core.distributor, &fd::ExecuteMsg::UpdateConfig { owner: None, bonding_contract_addr: None, fee_collector_addr: None, grace_period: None, distribution_asset: None, epoch_config: Some(white_whale_std::epoch_manager::epoch_manager::EpochConfig { duration: Uint64::new(nd), genesis_epoch: Uint64::new(genesis) }) }, &[]).is_ok() {
+                ops.push(format!("owner sets the epoch duration {duration} -> {nd}"));
+                if nd != duration {
+                    acc.count("distributor.duration-changed");
+                }
+                duration = nd;
+            }
+        }
         let now = app.block_info().time.nanos();
         let ref_start = if mid == 0 { genesis.saturating_sub(duration) } else { mstart };
         let t = schedule_step(r, now, ref_start, duration, genesis);
